@@ -4,6 +4,7 @@ import (
   "fmt"
   "sync"
   "github.com/bmeg/grip/gdbi"
+  "github.com/bmeg/grip/verifhook"
 )
 
 type MemQueue struct {
@@ -36,8 +37,14 @@ func New() Queue {
       }
       //fmt.Printf("Queue Size: %d %d / %d\n", len(queue), inCount, outCount)
       queue = append(queue, i)
+      if i.IsSignal() {
+        verifhook.Emit("queue.in_signal", 0, 0)
+      } else {
+        verifhook.Emit("queue.in", 0, 0)
+      }
       m.Unlock()
     }
+    verifhook.Point("queue.input_closed")
     closed = true
   }()
   go func() {
@@ -55,6 +62,12 @@ func New() Queue {
       }
       m.Unlock()
       if v != nil {
+        verifhook.Point("queue.out")
+        if v.IsSignal() {
+          verifhook.Emit("queue.out_signal", 0, 0)
+        } else {
+          verifhook.Emit("queue.out", 0, 0)
+        }
         o.output <- v
         outCount++
       }
